@@ -258,10 +258,11 @@ def upd_post(kind):
         self, fd = a['self'], a['fd']
         for lbl, f in mirror_for(I, self, fd):
             I.oblige('mirror.' + lbl, f)
-        if kind == 'Poll':
-            n = FILENO(fd.t)
-            listed = z3.Or(cnt(I, self, '_read', fd) > 0, cnt(I, self, '_write', fd) > 0)
-            I.oblige('map_entry_removed_when_unlisted', z3.Implies(z3.Not(listed), z3.Not(z3.Select(I.field(self, '_map').dom, n))))
+        # Mirror, other direction (dom _map = dom K): a descriptor that is no longer listed leaves no map entry behind - C12 names the
+        # poller's _map among the state that must be gone after a disconnect, and a stale entry is what a re-used number would hit
+        n = FILENO(fd.t)
+        listed = z3.Or(cnt(I, self, '_read', fd) > 0, cnt(I, self, '_write', fd) > 0)
+        I.oblige('map_entry_removed_when_unlisted', z3.Implies(z3.Not(listed), z3.Not(z3.Select(I.field(self, '_map').dom, n))))
         # frame: other numbers keep their kernel registration and map entry
         m = core.fresh('m', z3.IntSort())
         I.assume(m != FILENO(fd.t))
